@@ -140,6 +140,8 @@ func (c *Conn) ReadFrom(r io.Reader) (n int64, err error) {
 
 	// if there is no available buffer, create one.
 	if !bufNode.recyclable() || cap(bufNode.buf) == 0 {
+		// a new node, not the rest of a large one: Flush resets only recyclable nodes
+		c.outputBuffer.len = 0
 		c.Malloc(block4k)
 		c.outputBuffer.write.Reset()
 		c.outputBuffer.len = cap(c.outputBuffer.write.buf)
